@@ -74,13 +74,14 @@ def _in_value(E, x, value, case):
     return z3.Exists([i], z3.And(i >= 0, i < value.zlen(), x == E.toV(E.seq_elem(value, i))))
 
 
-def check_selection_helpers(run, E):
+def check_selection_helpers(run, E, pid='C10', fns=('bool_index', 'num_index'), gathers=True):
     """K6 / K7: bool_index, num_index, extract_dict, subset_descriptor -- for ALL descriptor columns (hashable scalars,
-    duplicates allowed), all value lists / scalars and all index sequences"""
+    duplicates allowed), all value lists / scalars and all index sequences.  (Other properties that depend on a helper
+    discharge its contract in their own run: pid / fns / gathers select what is generated and under which property.)"""
     E.inline |= {DU + 'bool_index'}       # num_index is verified with the body of bool_index (itself under contract above)
-    for fn in ('bool_index', 'num_index'):
+    for fn in fns:
         for case in ('scalar', 'list'):
-            ck = FuncCheck(E, run, 'C10', DU + fn, f'value={case}')
+            ck = FuncCheck(E, run, pid, DU + fn, f'value={case}')
 
             def mk(E, case=case):
                 desc = E.sym_list('desc', etag='scalar')
@@ -117,8 +118,8 @@ def check_selection_helpers(run, E):
                               z3.Implies(z3.And(in_t, t2 > t, t2 < L), E.as_int(E.seq_elem(res, t2)) > st))
             ck.execute(mk, post=post, allow_raise=lambda *a: None)
             yield ck
-    for qual in ('rsatoolbox.util.data_utils.extract_dict', DU + 'subset_descriptor'):
-        ck = FuncCheck(E, run, 'C10', qual, 'indices=sequence')
+    for qual in (('rsatoolbox.util.data_utils.extract_dict', DU + 'subset_descriptor') if gathers else ()):
+        ck = FuncCheck(E, run, pid, qual, 'indices=sequence')
         hold = {}
 
         def mk(E):
